@@ -268,7 +268,7 @@ func FreePathNode(p *PathNode) {
 func guardPathNodeSlice(con *[]PathNode, l int) {
 	c := cap(*con) // Get the current capacity of the slice
 	if l >= c {
-		tmp := make([]PathNode, len(*con), l+DefaultNodeSliceCap) // Create a new slice 'tmp'
+		tmp := make([]PathNode, len(*con), l+l/2+DefaultNodeSliceCap) // Create a new slice 'tmp' (grown geometrically: a constant step copies O(n^2) nodes for n children)
 		copy(tmp, *con)                                           // Copy elements from the original slice to the new slice 'tmp'
 		*con = tmp                                                // Update the reference of the original slice to point to the new slice 'tmp'
 	}
